@@ -32,7 +32,7 @@ def bounds(tier):
     return {'quick': {'depth': 4, 'max_states': 400}, 'thorough': {'depth': 6, 'max_states': 4000}}[tier]
 
 
-MODELS = [('pit', 'pit1d_frozen'), ('pit', 'pit1d'), ('mps', 'mps_a'), ('mps', 'mps_b'), ('sn', 'sn_a'), ('sn', 'sn_gumbel')]
+MODELS = [('pit', 'pit1d_frozen'), ('pit', 'pit1d'), ('pit', 'pit1d_flatout'), ('mps', 'mps_a'), ('mps', 'mps_b'), ('sn', 'sn_a'), ('sn', 'sn_gumbel')]
 
 
 def cases(tier, seed):
